@@ -14,6 +14,7 @@
 #include <boost/gil/extension/dynamic_image/any_image.hpp>
 #include <tuple>
 #include <functional>
+#include <time.h>
 
 #ifndef C11_FMT
 #define C11_FMT 0
@@ -34,6 +35,11 @@
 #include <tiffio.h>
 #endif
 
+#if C11_FMT == 5
+#define C11_HAS_FILE 0      // GIL has no FILE* device for TIFF
+#else
+#define C11_HAS_FILE 1
+#endif
 namespace gil = boost::gil;
 using c11::outcome;
 
@@ -87,12 +93,21 @@ template <class View> static uint64_t hash_view(View const& v) {
 }
 
 
+// breadcrumb for fatal reports: which device / entry point was running (printed by the death callback)
+static const char* g_at_dev = "-"; static const char* g_at_entry = "-"; static int g_at_run = 0;
+#ifdef VH_HAVE_SANITIZER
+static void c11_on_death() {
+    printf("@@AT device=%s entry=%s run=%d\n", g_at_dev, g_at_entry, g_at_run);
+    vh::on_death();
+}
+#endif
 // one reader call through one device with one pre-fill
 template <class Fn>
 static outcome run_once(input_t const& in, dev_kind d, const char* entry, pats_t p, Fn&& fn) {
     outcome o;
     c11::alloc_state_t& as = c11::alloc_state();
     as.fill = p.heap; as.cap_hits = 0;
+    g_at_dev = DEV_NAME[d]; g_at_entry = entry; g_at_run = p.stack == PAT_A.stack ? 1 : 2;
     try {
         switch (d) {
         case D_ISTREAM: {
@@ -103,6 +118,7 @@ static outcome run_once(input_t const& in, dev_kind d, const char* entry, pats_t
             fn(is, o);
             break;
         }
+#if C11_HAS_FILE
         case D_FILE: {
             static c11::cookie_t ck;       // static: a FILE* that the reader failed to close must not dangle
             ck = c11::cookie_t(); ck.bytes = in.bytes; ck.st = &o.ops;
@@ -112,6 +128,7 @@ static outcome run_once(input_t const& in, dev_kind d, const char* entry, pats_t
             fn(f, o);
             break;
         }
+#endif
         case D_NAME: {
             c11::scratch_file sf(*in.bytes, in.ext);
             std::string path = sf.path;
@@ -284,8 +301,13 @@ template <class F, class Tuple, size_t I> struct conv_loop<F, Tuple, I, true> { 
 static const long VIEW_PIXEL_CAP = 1 << 20;
 
 // all entry points through one device
-template <class F> static void run_device(input_t const& in, dev_kind d, uint64_t salt) {
+// lite: the header declares more than LITE_PIXELS pixels (every call costs time proportional to that):
+// only read_image_info, read_image and the scanline reader are run
+static const uint64_t LITE_PIXELS = (uint64_t)8 << 20;
+template <class F> static void run_device(input_t const& in, dev_kind d, uint64_t salt, bool with_subrect) {
     typedef typename F::tag tag;
+    bool lite = in.declared > LITE_PIXELS;
+    if (lite) vh::obs("mode.lite");
     // (1) read_image_info
     run_entry(in, d, "info", [&](auto& s, outcome& o) {
         auto be = gil::read_image_info(s, tag());
@@ -293,34 +315,39 @@ template <class F> static void run_device(input_t const& in, dev_kind d, uint64_
     });
     // (2) read_image in every native type
     natives_loop<F, typename F::natives>::read_image(in, d);
-    // (3) read_image of a sub-rectangle inside the declared dimensions
-    if (F::subrect && in.dw >= 2 && in.dh >= 2 && in.dw * in.dh <= VIEW_PIXEL_CAP) {
-        long x0 = in.dw / 3, y0 = in.dh / 3, dx = (in.dw - x0 + 1) / 2, dy = (in.dh - y0 + 1) / 2;
-        natives_loop<F, typename F::natives>::read_sub(in, d, x0, y0, dx, dy);
+    if (!lite) {
+        // (4) read_view into an arena of the declared size (4x4 when the header declares nothing usable)
+        long vw = 4, vh_ = 4;
+        if (in.dw > 0 && in.dh > 0 && in.dw * in.dh <= VIEW_PIXEL_CAP) { vw = in.dw; vh_ = in.dh; }
+        natives_loop<F, typename F::natives>::read_views(in, d, vw, vh_, vh::mix(salt, 17));
+        // (5) read_and_convert_image, (6) read_and_convert_view
+        conv_loop<F, typename F::conv_targets>::image(in, d);
+        run_entry(in, d, "convert_view", [&](auto& s, outcome& o) { do_view<F, gil::rgba8_image_t, true>(s, o, vw, vh_, vh::mix(salt, 23)); });
+        // a destination view one pixel smaller than declared: whatever happens, nothing outside may change
+        if (vw > 1 && vh_ > 1)
+            run_entry(in, d, "convert_view-small", [&](auto& s, outcome& o) { do_view<F, gil::rgba8_image_t, true>(s, o, vw - 1, vh_ - 1, vh::mix(salt, 29)); });
     }
-    // (4) read_view into an arena of the declared size (4x4 when the header declares nothing usable)
-    long vw = 4, vh_ = 4;
-    if (in.dw > 0 && in.dh > 0 && in.dw * in.dh <= VIEW_PIXEL_CAP) { vw = in.dw; vh_ = in.dh; }
-    natives_loop<F, typename F::natives>::read_views(in, d, vw, vh_, vh::mix(salt, 17));
-    // (5) read_and_convert_image, (6) read_and_convert_view
-    conv_loop<F, typename F::conv_targets>::image(in, d);
-    run_entry(in, d, "convert_view", [&](auto& s, outcome& o) { do_view<F, gil::rgba8_image_t, true>(s, o, vw, vh_, vh::mix(salt, 23)); });
-    // a destination view one pixel smaller than declared: whatever happens, nothing outside may change
-    if (vw > 1 && vh_ > 1)
-        run_entry(in, d, "convert_view-small", [&](auto& s, outcome& o) { do_view<F, gil::rgba8_image_t, true>(s, o, vw - 1, vh_ - 1, vh::mix(salt, 29)); });
     // (7) scanline reader
     run_entry(in, d, "scanline", [&](auto& s, outcome& o) { scan<F>::go(s, o); });
-    // (8) any_image
-    run_entry(in, d, "any_image", [&](auto& s, outcome& o) {
-        typename F::any_t img;
-        gil::read_image(s, img, tag());
-        o.w = (long)img.width(); o.h = (long)img.height();
-        o.pix = gil::apply_operation(gil::const_view(img), any_hash_fn());
-    });
+    if (!lite) {
+        // (8) any_image
+        run_entry(in, d, "any_image", [&](auto& s, outcome& o) {
+            typename F::any_t img;
+            gil::read_image(s, img, tag());
+            o.w = (long)img.width(); o.h = (long)img.height();
+            o.pix = gil::apply_operation(gil::const_view(img), any_hash_fn());
+        });
+        // (3) read_image of a sub-rectangle inside the declared dimensions (last: on the unchanged tree the
+        // BMP RLE and TARGA readers overrun their row buffers here even for valid files)
+        if (with_subrect && F::subrect && in.dw >= 2 && in.dh >= 2 && in.dw * in.dh <= VIEW_PIXEL_CAP) {
+            long x0 = in.dw / 3, y0 = in.dh / 3, dx = (in.dw - x0 + 1) / 2, dy = (in.dh - y0 + 1) / 2;
+            natives_loop<F, typename F::natives>::read_sub(in, d, x0, y0, dx, dy);
+        }
+    }
 }
 
 // a whole case
-template <class F> static void run_input(std::string const& bytes, bool truncated_valid, bool with_filename) {
+template <class F> static void run_input(std::string const& bytes, bool truncated_valid, bool with_filename, bool with_subrect) {
     input_t in;
     in.fmt = F::name(); in.ext = F::ext(); in.bytes = &bytes; in.truncated_valid = truncated_valid;
     long w = 0, h = 0; uint64_t extra = 0;
@@ -331,10 +358,10 @@ template <class F> static void run_input(std::string const& bytes, bool truncate
     } else in.declared = extra;
     in.declared += F::declared_slack(bytes);
     uint64_t salt = c11::hash_raw(bytes.data(), bytes.size(), 1);
-    c11::arm_cpu_net(120);
-    if (F::has_FILE) run_device<F>(in, D_FILE, salt);
-    if (with_filename) run_device<F>(in, D_NAME, salt);
-    run_device<F>(in, D_ISTREAM, salt);
+    c11::arm_cpu_net(200);
+    if (F::has_FILE) run_device<F>(in, D_FILE, salt, with_subrect);
+    if (with_filename) run_device<F>(in, D_NAME, salt, with_subrect);
+    run_device<F>(in, D_ISTREAM, salt, with_subrect);
 }
 
 static std::string hex_head(std::string const& b, size_t n = 48) {
@@ -356,7 +383,13 @@ static void mut_case(std::string const& cls_tail, std::string const& id, bool tr
     // the file-name device shares file_stream_device with FILE*: used for one mutation in four (all in thorough)
     bool with_name = vh::thorough() ? (counter % 2 == 0) : (counter % 4 == 0);
     vh::sample(vh::cat(F::name(), ".", cls_tail, " ", id, ": ", bytes.size(), " bytes ", hex_head(bytes, 32)));
-    run_input<F>(bytes, truncated_valid, with_name);
+    // sub-rectangle reads: every control, otherwise one mutation in four
+    bool with_sub = cls_tail == "valid" || counter % 4 == 1;
+    struct timespec t0, t1; clock_gettime(CLOCK_PROCESS_CPUTIME_ID, &t0);
+    run_input<F>(bytes, truncated_valid, with_name, with_sub);
+    clock_gettime(CLOCK_PROCESS_CPUTIME_ID, &t1);
+    double ms = (t1.tv_sec - t0.tv_sec) * 1e3 + (t1.tv_nsec - t0.tv_nsec) / 1e6;
+    if (ms > 400) printf("@@SLOW %.0f ms %s.%s %s\n", ms, F::name(), cls_tail.c_str(), id.c_str());
     if (enumerated) vh::distinct(1);
     else vh::distinct_hash(c11::hash_raw(bytes.data(), bytes.size(), vh::hash_str(F::name())));
 }
@@ -370,7 +403,7 @@ template <class F> static void generic_families(std::vector<seed_t> const& seeds
     // (i) truncation at every byte (small seeds) / every head byte + stride (larger seeds)
     for (auto const& s : seeds) {
         if (!T && !s.rep && s.bytes.size() > 2048) continue;
-        size_t every = T ? 4096 : (s.rep ? 2048 : 1200);
+        size_t every = T ? 4096 : 640;
         std::vector<size_t> pts = c11::truncation_points(s.bytes.size(), every, T ? 512 : 192, T ? 384 : (s.rep ? 40 : 16));
         for (size_t len : pts)
             mut_case<F>("truncate", vh::cat(s.name, "@", len), true, true, [&] { return s.bytes.substr(0, len); });
@@ -381,7 +414,7 @@ template <class F> static void generic_families(std::vector<seed_t> const& seeds
         std::vector<c11::field_t> fields = F::fields(s);
         for (auto const& f : fields) {
             std::vector<uint64_t> vals = c11::boundary_values(f.width);
-            if (f.width == 4) { uint64_t more[] = { 0xFFFFFFFEull, 0x80000001ull, 0x10000ull, 0x01000000ull, 0xFFFFFF80ull }; vals.insert(vals.end(), more, more + 5); }
+            if (f.width == 4) { uint64_t more[] = { 0xFFFFFFFEull, 0x80000001ull, 0x10000ull, 0xFFFFFF80ull }; vals.insert(vals.end(), more, more + 4); }
             if (f.width == 2) { uint64_t more[] = { 0xFFFEull, 0x8001ull, 0x0100ull }; vals.insert(vals.end(), more, more + 3); }
             for (uint64_t v : vals)
                 mut_case<F>(vh::cat("field.", f.name), vh::cat(s.name, ":", f.name, "=", v), false, true, [&] {
@@ -575,9 +608,9 @@ static void build_seeds() {
     { bmp_spec s = spec(6, 2, 8, 0); s.os2 = true; s.data = bmp_raw_rows(6, 2, 8, 256, 5); add_seed(v, "c-os2-pal8-6x2", "os2-pal8", bmp_build(s, 5), 0, true); }
     { bmp_spec s = spec(6, 3, 4, 0); s.os2 = true; s.data = bmp_raw_rows(6, 3, 4, 16, 6); add_seed(v, "c-os2-pal4-6x3", "os2-pal4", bmp_build(s, 6), 0, false); }
     { bmp_spec s = spec(9, 5, 8, 1); s.num_colors_field = 8; s.palette_entries = 8; s.data = bmp_rle(9, 5, false, 8, 7, false); add_seed(v, "c-rle8-9x5", "rle8", bmp_build(s, 7), 0, true); }
-    { bmp_spec s = spec(9, 5, 8, 1); s.data = bmp_rle(9, 5, false, 256, 8, true); add_seed(v, "c-rle8-9x5-delta", "rle8", bmp_build(s, 8), 0, false); }
+    { bmp_spec s = spec(9, 5, 8, 1); s.num_colors_field = 32; s.palette_entries = 32; s.data = bmp_rle(9, 5, false, 32, 8, true); add_seed(v, "c-rle8-9x5-delta", "rle8", bmp_build(s, 8), 0, false); }
     { bmp_spec s = spec(10, 4, 4, 2); s.data = bmp_rle(10, 4, true, 16, 9, false); add_seed(v, "c-rle4-10x4", "rle4", bmp_build(s, 9), 0, true); }
-    { bmp_spec s = spec(8, 3, 8, 1); s.topdown = true; s.data = bmp_rle(8, 3, false, 256, 10, false); add_seed(v, "c-rle8-8x3-topdown", "rle8", bmp_build(s, 10), 0, false); }
+    { bmp_spec s = spec(8, 3, 8, 1); s.topdown = true; s.num_colors_field = 20; s.palette_entries = 20; s.data = bmp_rle(8, 3, false, 20, 10, false); add_seed(v, "c-rle8-8x3-topdown", "rle8", bmp_build(s, 10), 0, false); }
     { bmp_spec s = spec(5, 3, 16, 0); s.data = bmp_raw_rows(5, 3, 16, 0, 11); add_seed(v, "c-rgb555-5x3", "rgb555", bmp_build(s, 11), 0, true); }
     { bmp_spec s = spec(5, 3, 16, 3); s.masks[0] = 0xF800; s.masks[1] = 0x07E0; s.masks[2] = 0x001F; s.data = bmp_raw_rows(5, 3, 16, 0, 12); add_seed(v, "c-bf565-5x3", "bitfield565", bmp_build(s, 12), 0, true); }
     { bmp_spec s = spec(4, 3, 24, 0); s.data = bmp_raw_rows(4, 3, 24, 0, 13); s.topdown = true; add_seed(v, "c-rgb24-4x3-topdown", "rgb24", bmp_build(s, 13), 0, false); }
@@ -696,12 +729,14 @@ static void targeted() {
                       { "h-zero", 3, 0, 24 }, { "wh-zero-pal", 0, 0, 8 }, { "h-intmin", 3, (long long)INT32_MIN, 24 }, { "h-neg1", 3, -1, 24 }, { "h-2^31-1", 1, 0x7FFFFFFF, 24 },
                       { "w-65536-h-65536", 65536, 65536, 24 }, { "w-46341-h-46341-bpp32", 46341, 46341, 32 }, { "w-16384-h-5000-bpp24", 16384, 5000, 24 },
                       { "w-1-h-3000000-bpp24", 1, 3000000, 24 }, { "w-3000000-h-1-pal8", 3000000, 1, 8 }, { "w-2^16+1-rle8", 65537, 1, 8 } };
-    for (auto const& c : dc)
+    for (auto const& c : dc) {
+        if (!vh::thorough() && (long long)c.w * c.h > (6LL << 20) && (long long)c.w * c.h < (100LL << 20)) continue;   // allocatable and slow
         mut_case<F>("dimension", c.id, false, true, [&] {
             bmp_spec s = spec(4, 2, c.bpp, strstr(c.id, "rle8") ? 1 : 0);
             s.data = strstr(c.id, "rle8") ? bmp_rle(4, 2, false, 256, 220, false) : bmp_raw_rows(4, 2, c.bpp, 256, 220);
             std::string b = bmp_build(s, 221); c11::put_le(b, 18, 4, (uint64_t)c.w); c11::put_le(b, 22, 4, (uint64_t)c.h); return b;
         });
+    }
     // header_size values between the known sizes
     for (int hs : { 0, 11, 12, 13, 16, 39, 40, 41, 52, 56, 64, 108, 124, 125, 0xFFFF })
         mut_case<F>("header-size", vh::cat("hs", hs), false, true, [&] {
@@ -795,9 +830,9 @@ static void build_seeds() {
     add_seed(v, "w-gray8-9x7", "P5", written(gil::const_view(seeded_image<gil::gray8_image_t>(9, 7, 62)), wi), 5, false);
     add_seed(v, "w-rgb8-9x7", "P6", written(gil::const_view(seeded_image<gil::rgb8_image_t>(9, 7, 63)), wi), 6, false);
     add_seed(v, "w-rgb8-1x1", "P6", written(gil::const_view(seeded_image<gil::rgb8_image_t>(1, 1, 64)), wi), 6, false);
-    { gil::gray1_image_t g(13, 5); gil::fill_pixels(gil::view(g), gil::gray1_image_t::value_type(0)); vh::rng r(65);
-      auto gv = gil::view(g); for (int y = 0; y < 5; ++y) { auto it = gv.row_begin(y); for (int x = 0; x < 13; ++x, ++it) gil::at_c<0>(*it) = (unsigned)r.below(2); }
-      add_seed(v, "w-gray1-13x5", "P4", written(gil::view(g), wi), 4, false); }
+    { gil::gray1_image_t g(16, 5); gil::fill_pixels(gil::view(g), gil::gray1_image_t::value_type(0)); vh::rng r(65);
+      auto gv = gil::view(g); for (int y = 0; y < 5; ++y) { auto it = gv.row_begin(y); for (int x = 0; x < 16; ++x, ++it) gil::at_c<0>(*it) = (unsigned)r.below(2); }
+      add_seed(v, "w-gray1-16x5", "P4", written(gil::view(g), wi), 4, false); }
     add_fixture(v, "pnm", "p4.pnm", "P4", 4, false);
     add_fixture(v, "pnm", "p5.pnm", "P5", 5, false);
     // heads of the big ASCII fixtures, re-declared to the rows kept
@@ -855,8 +890,10 @@ static void targeted() {
         { "declared-00", "0", "0", 0, 0 }, { "declared-huge-w", "2000000000", "1", 4, 3 }, { "declared-huge-h", "1", "2000000000", 4, 3 },
         { "declared-65536x65536", "65536", "65536", 4, 3 }, { "declared-3000000x1", "3000000", "1", 4, 3 }, { "declared-1x3000000", "1", "3000000", 4, 3 },
         { "declared-16384x5000", "16384", "5000", 4, 3 }, { "declared-w-not-multiple-of-8", "9", "3", 16, 3 } };
-    for (int t = 1; t <= 6; ++t) for (auto const& c : dc)
+    for (int t = 1; t <= 6; ++t) for (auto const& c : dc) {
+        if (!vh::thorough() && (strstr(c.id, "3000000") || strstr(c.id, "16384"))) continue;       // allocatable and slow
         mut_case<F>("dimension", vh::cat("P", t, "-", c.id), false, true, [&] { return pnm_build(t, c.w, c.h, "255", c.pw, c.ph, 90 + t, false); });
+    }
     const char* junk[] = { "", "P", "P5", "P5 ", "P5 3", "P5 3 2", "P5 3 2 255", "BM......", "\x89PNG\r\n\x1a\n" };
     for (int k = 0; k < 9; ++k) mut_case<F>("not-pnm", vh::cat("junk", k), false, true, [&] { return std::string(junk[k]); });
     for (int k = 0; k < (vh::thorough() ? 400 : 60); ++k)
@@ -993,11 +1030,13 @@ static void targeted() {
     struct { const char* id; int w, h, idlen, type; } dc[] = { { "w0", 0, 3, 0, 2 }, { "h0", 3, 0, 0, 2 }, { "65535x65535-raw", 65535, 65535, 0, 2 }, { "65535x65535-rle", 65535, 65535, 0, 10 },
                                                                { "65535x1-raw", 65535, 1, 0, 2 }, { "1x65535-raw", 1, 65535, 0, 2 }, { "65535x300-rle", 65535, 300, 0, 10 }, { "4000x4000-rle", 4000, 4000, 0, 10 },
                                                                { "idlen255", 4, 3, 255, 2 }, { "idlen255-rle", 4, 3, 255, 10 }, { "1x65535-rle", 1, 65535, 0, 10 } };
-    for (auto const& c : dc) for (int bpp : { 24, 32 })
+    for (auto const& c : dc) for (int bpp : { 24, 32 }) {
+        if (!vh::thorough() && (long)c.w * c.h > (6L << 20) && (long)c.w * c.h * (bpp / 8) < (256L << 20)) continue;   // allocatable and slow
         mut_case<F>("dimension", vh::cat(c.id, "-bpp", bpp), false, true, [&] {
             std::string b = tga_header(0, 0, c.type, 0, 0, 0, c.w, c.h, bpp, bpp == 32 ? 8 : 0); b[0] = (char)c.idlen;
             return b + (c.type == 10 ? tga_rle(4, 3, bpp / 8, 96) : tga_raw(4, 3, bpp / 8, 96));
         });
+    }
     const char* junk[] = { "", "\0", "BM", "P6 1 1 255 abc", "\x89PNG\r\n\x1a\n", "TRUEVISION-XFILE.\0" };
     for (int k = 0; k < 6; ++k) mut_case<F>("not-tga", vh::cat("junk", k), false, true, [&] { return std::string(junk[k], k == 1 ? 1 : strlen(junk[k])); });
     for (int k = 0; k < (vh::thorough() ? 400 : 60); ++k)
@@ -1020,6 +1059,9 @@ static void format_setup() {}
 
 int main(int argc, char** argv) {
     vh::init(argc, argv);
+#ifdef VH_HAVE_SANITIZER
+    vh::__sanitizer_set_death_callback(&c11_on_death);
+#endif
     g_fmt = F::name();
     format_setup();
     build_seeds();
